@@ -168,7 +168,7 @@ theorem pe_bin (hW : WOK W) (f : Nat) (ih : PE W f) (el : RExpr) (op : BinOp) (e
     have ihr := ih nl fn Γ Γx Λ false er hr st1 (pos + sizeE el) lp (emitE el pos lp cs).2 below fr locs1 (ops.push ma) g1 l1 hsc hinv1 hc2 hpool
     simp only
     rcases ihr with ihr | ihr
-    · exact .inl (Fails.after n1 hn1 ihr)
+    · exact .inl (Ovf.after n1 hn1 ihr)
     cases hrr : evalE f er st1 with
     | val b st2 =>
       rw [hrr] at ihr
